@@ -10,6 +10,7 @@ Inductive tvop :=
 | TEnd (h : Z)                     (* opchild.EndBlocker at height h; the batch goes to the engine *)
 | TRegister (r : plan_req)         (* Keeper.RegisterExecutorChangePlan *)
 | TEngine (ups : list update)      (* a batch given to the engine directly (validates engine_apply) *)
+| TProbeExec (sender : bytes)      (* a FinalizeTokenDeposit by [sender] on a discarded branch: is it an executor? *)
 | TDryBlock (h : Z).               (* BeginBlocker + EndBlocker at height h on a cache branch that is
                                       DISCARDED (a rejected proposal, a simulation): no effect at all *)
 
@@ -121,6 +122,8 @@ Definition tv_step (c : valcase) (st : tvstate) (o : tvop) : tvstate * ov :=
   | TEngine ups =>
       let '(st2, acc) := feed_engine st ups in
       (st2, step_ov c "OK" (Some (ups, acc)) st2)
+  | TProbeExec sender =>
+      if is_executor (cfg_of c) (t_l2 st) sender then (st, step_ov c "OK" None st) else err
   | TDryBlock h =>
       let k := core_of (t_l2 st) in
       match begin_block (vc_maxv k) (vc_entries k) h (vc_vs k) (t_hist st),
